@@ -43,6 +43,7 @@ def check(ck):
     r01_6(ck, rf)
     r01_7(ck, rf)
     r01_8(ck, rf)
+    r01_9(ck)
 
 
 # ------------------------------------------------------------------ R01.1
@@ -772,3 +773,57 @@ def r01_8(ck, rf):
     ck.require(cond_rets >= 1, 'R01.8', uc, uc.node.name,
                'update_condition consults self.condition_path',
                'update_condition ignores the configured condition path')
+
+
+# ------------------------------------------------------------------ R01.9
+def r01_9(ck):
+    ck.rule('R01.9', 'the clock never passes a pending due time: on every '
+            'abstract path through the polling body a process with an '
+            'update in flight (or just started) lowers full_step by the '
+            'distance to its due time, so the update is applied at the end '
+            'of its interval and not later')
+    from ..sched import SchedulerAnalysis
+    from ..linear import Lin, eq, entails
+    sa = SchedulerAnalysis(ck)
+    f = sa.rf.fi
+    gt = Lin.sym('gt')
+    n = 0
+    seen = set()
+    for st in sa.poll_states:
+        # the entry's time at the end of the path
+        key = sa.path_var
+        t = st.slots.get(('time', key), Lin.sym('pt'))
+        quiet = any(e[0] == 'append' and e[3] == key for e in st.events)
+        terms = [e for e in st.events if e[0] == 'fullstep-term']
+        trace = ', '.join('%s=%s' % x for x in st.trace)
+        if quiet:
+            continue
+        n += 1
+        ok = False
+        for e in terms:
+            term = e[2]
+            if isinstance(term, Lin) and isinstance(t, Lin):
+                # term <= due time - clock  (never shoots past the event)
+                from ..linear import le
+                if entails(st.facts, le(term, t - gt)):
+                    ok = True
+        # deferred processes (future beyond end) bound the step by more
+        # than the remaining interval; they hold no update
+        holds_update = any(e[0] == 'invoke' for e in st.events) or not any(
+            e[0] in ('invoke', 'timestep') for e in st.events)
+        if not holds_update:
+            ok = ok or bool(terms)
+        label = st.trace[-1][0] if st.trace else 'polling body'
+        k = (label, ok)
+        if k in seen:
+            continue
+        seen.add(k)
+        ck.require(ok, 'R01.9', f, 'polling path ending at: ' + label,
+                   'full_step is bounded by the distance to the due time of '
+                   'this process',
+                   'on the path [%s] the step of the clock is not bounded '
+                   'by the due time of the process: the clock can pass a '
+                   'pending update, which is then applied late' % trace,
+                   sa.rf.poll_loop)
+    ck.floor('R01.9', n, 4, 'abstract polling paths holding or starting an '
+             'update')
